@@ -99,6 +99,24 @@ def write_decode_module(work, tier, fam, shape, lengths, valid_lengths):
                 conds.append(Cond(path, fn, oid + '/twin', desc, twin=True))
             else:
                 conds.append(Cond(path, fn, oid, desc))
+    # array counters: bounded whatever the rest of the input is (the 65536 guard of container_len._decode)
+    k = 0
+    sizer_fields = W.sizer_names(W.strip(shape))
+    for it in W.struct_items(shape):
+        if it['kind'] == 'counter':
+            width = 4
+        elif it['kind'] == 'plain' and it['f'].name in sizer_fields:
+            width = W.strip(it['f'].type).size
+        else:
+            continue
+        names = ['b%d' % i for i in range(width)]
+        fn = 'guard__%d' % k
+        body.append('def %s(%s, be: bool) -> bool:\n    """\n    pre: %s\n    post: _\n    """\n    return H.check_count_guard(CLS, %d, [%s], be)\n\n'
+                    % (fn, ', '.join('%s: int' % n for n in names), ' and '.join('0 <= %s < 256' % n for n in names), k, ', '.join(names)))
+        conds.append(Cond(path, fn, '%s/count-guard/%d' % (shape.name, k),
+                          dict(shape=shape.name, check='array counter bounded', counter=k, symbolic='the %d counter bytes + byte order' % width),
+                          sample_args=[1] + [0] * (width - 1) + [False]))
+        k += 1
     with open(path, 'w') as f:
         f.write(''.join(body))
     return conds
